@@ -37,3 +37,27 @@ Lemma refuted_steal :
   let s := final KHasMany [1; 2] hm_init ops in
   links KHasMany s 1 = [] /\ nth 0 (mem s) [] = [11] /\ spec_run KHasMany ops [[]; []] = [[11]; [11]].
 Proof. repeat split; vm_compute; reflexivity. Qed.
+
+(* ---- non-vacuity: an admissible history on a struct handle ---- *)
+From Verif Require Import C12_Proofs C12_Proofs2.
+Lemma disjoint_single v : disjoint_lists [v].
+Proof. intros [|i] [|j] vi vj t NE Hi Hj; try congruence; destruct i + destruct j; discriminate. Qed.
+Lemma no_steal_single o s v : no_steal [o] s [v].
+Proof. intros [|i] [|j] ow vi t NE Hi Hj; try congruence; destruct i + destruct j; discriminate. Qed.
+
+Definition ex_init : st := mk_st [(11, None); (12, Some 7); (13, None)] [] [] [[]].
+Definition ex_ops : list (bool * op) :=
+  [(false, OAppend [[11; 12]]); (true, ODelete [11]); (false, OReplace [[13]]); (false, OClear)].
+
+Example has_instance : wf_has [1] ex_init /\ hist_ok KHasMany [1] ex_init ex_ops.
+Proof.
+  split.
+  - constructor.
+    + cbn. repeat constructor; cbn; intuition discriminate.
+    + repeat constructor. intros [].
+    + reflexivity.
+    + intros [|i] o m Ho Hm t; cbn in Ho, Hm; [|destruct i; discriminate].
+      inversion Ho; inversion Hm; subst. unfold LK, ex_init. cbn [rows look]. split; [intros [] |].
+      destruct (11 =? t); [discriminate|]. destruct (12 =? t); [discriminate|]. destruct (13 =? t); discriminate.
+  - cbn. repeat split; auto using disjoint_single, no_steal_single; try discriminate.
+Qed.
